@@ -42,6 +42,19 @@ Input classes added for the statement's "for all configurations / sets of uttera
 that are odd in samples, in causal / centred / Kaldi-shift framing; --seed=0; manifest cases whose ids contain one
 another (prefix, suffix, extension of the listed id) and manifest lines that merely contain a map id.
 
+Frame-count boundaries ("variant": "edge" cases, first among the single cases): "for EVERY utterance ... the stored feature
+matrix equals ... compute_full of the configured computer ..., then the configured post-processors in order" includes
+utterances that yield exactly one or two frames. For eight computers the utterance set holds the longest signal without a
+frame, the shortest and the longest with exactly one frame, the shortest and the longest with exactly two frames and an
+ordinary one (lengths found by bisection on the oracle's computer), with post-processor lists that are defined on a single
+frame: Deltas, Stack (discarding and padding), Standardize with a statistics file written by the harness, Standardize with
+norm_var false. A Kaldi matrix without rows has no width, so when the post-processors leave no row (discarding Stack on one
+frame) the Kaldi tool is required to store zero rows.
+
+OPEN (reported): torch tool x STFT frame_style "causal" with frame length > shift x utterances shorter than half the padded
+length: the tool's torch STFT raises (its right reflection supplies at most the signal's own length); that combination is
+not in the plan yet (the Kaldi tool is checked with it, the torch tool with the causal computer whose frame < shift).
+
 Not enumerated (outside the property): torch tool x Standardize x zero-frame utterance -- pipeline
 undefined: Standardize.apply rejects empty input.  For the Kaldi tool a zero-frame utterance is only
 required to be present with zero rows (the tool deliberately skips post-processing there).
@@ -193,7 +206,22 @@ POSTS = {
         {"kind": "standardize", "kw": {"norm_var": False}},
         {"kind": "deltas", "kw": {"num_deltas": 2}},
     ],
+    # post-processors that are DEFINED on a single frame (used by the "edge" utterance sets below): Stack that pads the
+    # time axis instead of discarding, Standardize with global statistics from a file ("@STATS" is replaced by the path
+    # of a statistics file the harness writes next to the signals), Standardize with norm_var false
+    "stack_pad": [{"kind": "stack", "kw": {"num_vectors": 2, "pad_mode": "edge"}}],
+    "stats_standardize": [{"kind": "standardize", "kw": {"rfilename": "@STATS"}}],
+    "deltas_stats_stackpad": [
+        {"kind": "deltas", "kw": {"num_deltas": 1}},
+        {"kind": "standardize", "kw": {"rfilename": "@STATS"}},
+        {"kind": "stack", "kw": {"num_vectors": 3, "pad_mode": "constant"}},
+    ],
+    "novar_stackpad": [
+        {"kind": "standardize", "kw": {"norm_var": False}},
+        {"kind": "stack", "kw": {"num_vectors": 2, "pad_mode": "edge"}},
+    ],
 }
+STATS_COUNT = 37
 
 ID_POOL = ["zed", "alpha-2", "utt_10", "A.b", "utt_9", "m", "Q7", "x-ray", "b2b", "utt_100"]
 
@@ -328,6 +356,39 @@ def _mk_post(p):
     return {"deltas": post.Deltas, "stack": post.Stack, "standardize": post.Standardize}[p["kind"]](**p["kw"])
 
 
+def _posts_of(case, d):
+    """The post-processor descriptors of the case with "@STATS" replaced by the statistics file inside directory d."""
+    out = []
+    for p in POSTS[case["post"]]:
+        kw = {k: (os.path.join(d, "stats.npy") if v == "@STATS" else v) for k, v in p["kw"].items()}
+        out.append({"kind": p["kind"], "kw": kw})
+    return out
+
+
+def _write_stats(case, d):
+    """Writes the global statistics file of a Standardize(rfilename=...) of the case, if it has one: a (2, F + 1) float64
+    array [[sums..., count], [sums of squares..., 0]] (the layout of Standardize / Kaldi CMVN statistics) for F = the
+    width of the features at that position of the post-processor list; |mean| <= 1 and 0.5 <= std <= 2, so that the
+    standardized values keep the scale of the features (no cancellation; the comparison stays well conditioned)."""
+    items = _posts_of(case, d)
+    for j, p in enumerate(items):
+        if p["kind"] == "standardize" and "rfilename" in p["kw"]:
+            comp = _mk_computer(COMPUTERS[case["computer"]])
+            probe = _common.make_rng(case["data_seed"], "c09:statsprobe").standard_normal((12, int(comp.num_coeffs)))
+            with warnings.catch_warnings():
+                warnings.simplefilter("ignore")
+                for q in items[:j]:
+                    probe = _mk_post(q).apply(probe)
+            width = probe.shape[1]
+            rng = _common.make_rng(case["data_seed"], "c09:stats")
+            mean, std = rng.uniform(-1.0, 1.0, width), rng.uniform(0.5, 2.0, width)
+            stats = np.zeros((2, width + 1))
+            stats[0, :-1], stats[0, -1] = STATS_COUNT * mean, STATS_COUNT
+            stats[1, :-1] = STATS_COUNT * (std**2 + mean**2)
+            np.save(p["kw"]["rfilename"], stats)
+            return
+
+
 def _pipeline(x, pre, computer, posts, noise, apply_post_on_empty):
     """The library pipeline of the property statement for ONE utterance. `noise(n)` returns n
     standard-normal float64 draws from the utterance's dither stream."""
@@ -397,6 +458,7 @@ def _write_inputs(case, d):
     table = os.path.join(d, "wav.scp" if case["tool"] == "kaldi" else "map")
     with open(table, "w") as f:
         f.writelines(lines)
+    _write_stats(case, d)
     return table
 
 
@@ -415,12 +477,12 @@ def _excluded(case, i):
     return None
 
 
-def _expected(case):
-    """[(id, float32 matrix, zero_frame)] for the non-excluded utterances, in table order."""
+def _expected(case, d):
+    """[(id, float32 matrix, frames given by compute_full)] for the non-excluded utterances, in table order."""
     import torch
 
     comp = None if case["computer"] is None else _mk_computer(COMPUTERS[case["computer"]])
-    pre, posts = PRES[case["pre"]], [_mk_post(p) for p in POSTS[case["post"]]]
+    pre, posts = PRES[case["pre"]], [_mk_post(p) for p in _posts_of(case, d)]
     seed = case["seed"]
     rs = np.random.RandomState(seed) if (case["tool"] == "kaldi" and seed is not None) else None
     out = []
@@ -439,7 +501,7 @@ def _expected(case):
         with warnings.catch_warnings():
             warnings.simplefilter("ignore")
             y, frames = _pipeline(x, pre, comp, posts, noise, apply_post_on_empty=(case["tool"] == "torch"))
-        out.append((u["id"], y, frames == 0))
+        out.append((u["id"], y, frames))
     return out
 
 
@@ -485,7 +547,7 @@ def _run_tool(case, d, table, syntax, tag, perturb, fixed_paths=False):
     if PRES[case["pre"]]:
         opts.append("--preprocess=" + _cfg_arg(_proc_cfg(PRES[case["pre"]], style), syntax, d, "pre" + ctag))
     if POSTS[case["post"]]:
-        opts += ["--postprocess", _cfg_arg(_proc_cfg(POSTS[case["post"]], style), syntax, d, "post" + ctag)]
+        opts += ["--postprocess", _cfg_arg(_proc_cfg(_posts_of(case, d), style), syntax, d, "post" + ctag)]
     if case["seed"] is not None:
         opts.append(f"--seed={case['seed']}")
     if case["channel"] != -1:
@@ -568,7 +630,7 @@ def _same(a, b):
 
 
 def _new_info():
-    return {"compared": 0, "zero": 0, "slack": 0.0, "slack_entry": 0.0, "skipped": 0}
+    return {"compared": 0, "zero": 0, "slack": 0.0, "slack_entry": 0.0, "skipped": 0, "one": 0, "two": 0}
 
 
 def _check(case):
@@ -577,7 +639,7 @@ def _check(case):
         fails, infos = _check_session(case)
         info = _new_info()
         for i in infos:
-            for k in ("compared", "zero", "skipped"):
+            for k in ("compared", "zero", "skipped", "one", "two"):
                 info[k] += i[k]
             for k in ("slack", "slack_entry"):
                 info[k] = max(info[k], i[k])
@@ -595,7 +657,7 @@ def _check_in(case, d, fixed_paths):
     fails, info = [], _new_info()
     if True:
         table = _write_inputs(case, d)
-        exp = _expected(case)
+        exp = _expected(case, d)
         info["skipped"] = len(case["utts"]) - len(exp)
         rc, got = _run_tool(case, d, table, case["syntax"], "a", perturb=11, fixed_paths=fixed_paths)
         if rc != 0:
@@ -605,7 +667,9 @@ def _check_in(case, d, fixed_paths):
         if want_ids != got_ids:
             fails.append((f"C09.{tool}.ids", f"stored ids {got_ids} != non-excluded ids {want_ids}"))
         gd = {k: (v, dt) for k, v, dt in got}
-        for k, y, zero in exp:
+        n_of = {u["id"]: u["n"] for u in case["utts"]}
+        for k, y, frames in exp:
+            zero = frames == 0
             if k not in gd:
                 continue
             v, dt = gd[k]
@@ -621,11 +685,35 @@ def _check_in(case, d, fixed_paths):
                 elif tool == "torch" and v.shape != y.shape:
                     fails.append((f"C09.{tool}.value", f"{k!r}: stored shape {v.shape}, pipeline gives {y.shape}"))
                 continue
+            if tool == "kaldi" and y.shape[0] == 0:
+                # frames, but the configured post-processors leave no row (Stack without padding on fewer frames than
+                # num_vectors): a Kaldi matrix without rows has no width either, so "equals" is "no rows" (A-IO-CONTAINER)
+                info["one"] += frames == 1
+                info["two"] += frames == 2
+                if v.ndim != 2 or v.shape[0] != 0:
+                    fails.append(
+                        (
+                            f"C09.{tool}.value",
+                            f"{k!r} ({n_of[k]} samples, compute_full gives {frames} frame(s)): stored shape {v.shape}, but "
+                            f"compute_full followed by the configured post-processors {case['post']!r} leaves no row {y.shape}",
+                        )
+                    )
+                continue
             if v.shape != y.shape:
-                fails.append((f"C09.{tool}.value", f"{k!r}: stored shape {v.shape}, pipeline gives {y.shape}"))
+                fails.append(
+                    (
+                        f"C09.{tool}.value",
+                        f"{k!r} ({n_of[k]} samples, compute_full gives {frames} frame(s)): stored shape {v.shape}, but "
+                        f"compute_full followed by the configured post-processors {case['post']!r} gives {y.shape}",
+                    )
+                )
                 continue
             if y.shape[0]:
                 info["compared"] += 1
+            # utterances at the frame-count boundary that were compared with the pipeline (also when the post-processors
+            # leave no row of the one frame, e.g. Stack without padding: the stored matrix must then have no row either)
+            info["one"] += frames == 1
+            info["two"] += frames == 2
             v64, y64 = v.astype(np.float64), y.astype(np.float64)
             err = np.where(np.isfinite(v64 - y64), np.abs(v64 - y64), np.inf)  # NaN/inf count as off
             err = np.where((v64 == y64), 0.0, err)  # equal infinities are equal
@@ -644,8 +732,8 @@ def _check_in(case, d, fixed_paths):
                 fails.append(
                     (
                         f"C09.{tool}.value",
-                        f"{k!r}: {int(bad.sum())}/{y.size} entries off; at {tuple(int(t) for t in j)} stored "
-                        f"{v[j]!r} pipeline {y[j]!r}",
+                        f"{k!r} ({n_of[k]} samples, {frames} frame(s)): {int(bad.sum())}/{y.size} entries off; at "
+                        f"{tuple(int(t) for t in j)} stored {v[j]!r} pipeline {y[j]!r}",
                     )
                 )
         if case["syntax"] != "inline" and (case["seed"] is not None or not _has(PRES[case["pre"]], "dither")):
@@ -831,8 +919,64 @@ def _utt_set(rng, tool, variant):
     return utts
 
 
+_EDGE = {}
+
+
+def _edge_lengths(computer):
+    """[n1, n2, n3]: the smallest signal lengths for which compute_full of the configured computer gives >= 1, >= 2,
+    >= 3 frames (bisection on the oracle's computer; the frame count is non-decreasing in the length). Used only to
+    PLACE utterances at the frame-count boundaries; what is compared is measured (see the notes of run)."""
+    if computer not in _EDGE:
+        comp = _mk_computer(COMPUTERS[computer])
+
+        def frames(n):
+            with warnings.catch_warnings():
+                warnings.simplefilter("ignore")
+                return len(comp.compute_full(np.ones(n)))
+
+        out = []
+        for want in (1, 2, 3):
+            lo, hi = 0, 4096  # frames(lo) < want <= frames(hi)
+            while hi - lo > 1:
+                mid = (lo + hi) // 2
+                lo, hi = (lo, mid) if frames(mid) >= want else (mid, hi)
+            out.append(hi)
+        _EDGE[computer] = out
+    return list(_EDGE[computer])
+
+
+def _edge_utts(rng, tool, computer, post):
+    """Statement: "For EVERY utterance given to [either tool] ... the stored feature matrix equals ... compute_full of the
+    configured computer ..., then the configured post-processors in order"; quantifier: "sets of utterances (including
+    ones too short to yield a frame)". The utterances here sit on the frame-count boundaries of the configured frame
+    length / shift / style: the longest signal without a frame, the shortest and the longest with exactly ONE frame, the
+    shortest and the longest with exactly TWO frames, and one ordinary one, in random table order. The post-processor
+    lists used with them are defined on one frame (Deltas, Stack with and without padding, Standardize with a statistics
+    file or with norm_var false)."""
+    n1, n2, n3 = _edge_lengths(computer)
+    ns = [n1 - 1, n1, n2 - 1, n2, n3 - 1, int(rng.integers(700, 2401))]
+    ns = [n for j, n in enumerate(ns) if n >= 1 and n not in ns[:j]]
+    if tool == "torch" and _has(POSTS[post], "standardize"):
+        # torch tool x Standardize x zero-frame utterance: pipeline undefined (Standardize.apply rejects empty input)
+        ns = [n for n in ns if n >= n1]
+    ns = [ns[i] for i in rng.permutation(len(ns))]
+    ids = [ID_POOL[i] for i in rng.permutation(len(ID_POOL))]
+    fmts = ["wav", "npy64", "pt", "npy32", "npy16"]
+    order = rng.permutation(len(fmts))
+    return [
+        {
+            "n": int(n),
+            "ch": 1 if tool == "kaldi" else 0,
+            "rate": RATE,
+            "fmt": "wav" if tool == "kaldi" else fmts[order[j % len(fmts)]],
+            "id": ids[j],
+        }
+        for j, n in enumerate(ns)
+    ]
+
+
 def _make_case(rng, tool, computer, pre, post, syntax, variant, repeat=False, style="dicts", seed=None):
-    utts = _utt_set(rng, tool, variant)
+    utts = _edge_utts(rng, tool, computer, post) if variant == "edge" else _utt_set(rng, tool, variant)
     case = {
         "tool": tool,
         "computer": computer,
@@ -877,7 +1021,7 @@ def _make_case(rng, tool, computer, pre, post, syntax, variant, repeat=False, st
             case["manifest_extra"] = ["not-in-the-map", "x" + stem + "y", listed + listed]
         elif variant == "affix":
             case["prefix"], case["suffix"] = "f_", ".feat.pt"
-        if computer is None or _has(POSTS[post], "standardize"):
+        if variant != "edge" and (computer is None or _has(POSTS[post], "standardize")):
             # no computer: nothing is "too short for a frame" (S samples -> S rows, and Standardize needs >= 1
             # row); with Standardize a zero-frame utterance leaves the pipeline undefined -> not enumerated
             for u in utts:
@@ -893,7 +1037,7 @@ def _make_case(rng, tool, computer, pre, post, syntax, variant, repeat=False, st
         if lo <= hi:
             utts[1]["n"] = int(rng.integers(lo, hi + 1))
             case["gap_n"] = utts[1]["n"]
-    if computer is not None and _has(POSTS[post], "standardize"):
+    if variant != "edge" and computer is not None and _has(POSTS[post], "standardize"):
         # >= 18 frames, i.e. >= 6 rows after Stack(3): Standardize.apply raises on a single row (pipeline
         # undefined), and a 2-3 row Standardize can have a column whose standard deviation is tiny by chance,
         # which makes the comparison ill-conditioned (not a property of the tool). Utterances meant to be too
@@ -959,6 +1103,24 @@ def _plan(tier, seed):
     SEED0 = {"seed": 0, "repeat": True}
     kaldi_core[1:1] = [("stft_fbank", "dither", "none", "plain", SEED0)]
     torch_core[1:1] = [("stft_fbank", "dither", "none", "plain", SEED0)]
+    # utterances with exactly 0 / 1 / 2 frames (see _edge_utts) x post-processors that are defined on one frame, both
+    # tools, the three framing styles, even and odd frame lengths, STFT and short-integration computers: first
+    edge = [
+        ("stft_fbank", "none", "deltas", "edge"),
+        ("stft_kaldi", "preemph", "stats_standardize", "edge"),
+        ("stft_odd_causal", "dither", "stack_pad", "edge"),
+        ("si_gabor", "none", "stack", "edge"),
+        ("stft_odd_kaldi", "preemph_dither", "deltas_stats_stackpad", "edge"),
+        ("stft_odd_centered", "none", "novar_stackpad", "edge"),
+        ("si_tone", "dither", "standardize_deltas", "edge"),
+        ("stft_causal_gabor", "preemph", "deltas", "edge"),
+    ]
+    kaldi_core[0:0] = edge
+    # torch tool: the causal computer of the edge sets is the one whose frame is shorter than its shift. OPEN, reported:
+    # with frame_style "causal" and frame length > shift the tool's torch STFT raises on utterances shorter than half the
+    # padded length (its right reflection supplies at most the signal's own length), e.g. 25 ms / 10 ms at 8 kHz and
+    # 120..139 samples; that combination (torch x stft_odd_causal x edge) is therefore not in the plan yet
+    torch_core[0:0] = [(("stft_causal_gabor",) + e[1:]) if e[0] == "stft_odd_causal" else e for e in edge]
     kaldi_core += [("si_gabor", "preemph_dither", "deltas", "mixed", SEED0)]
     torch_core += [(None, "dither_dither", "none", "manifest", SEED0)]
     for tool, core in (("kaldi", kaldi_core), ("torch", torch_core)):
@@ -1032,6 +1194,7 @@ def run(tier: str, seed: int) -> dict:
     n_odd = {"kaldi": 0, "torch": 0}
     n_seed0 = {"kaldi": 0, "torch": 0}
     n_session_calls = n_rewritten = 0
+    n_edge = {"kaldi": [0, 0], "torch": [0, 0]}  # utterances with exactly one / exactly two frames compared, per tool
     for case in cases:
         if col.out_of_time() or col.too_many_failures():
             col.note(f"stopped after {n_done}/{len(cases)} planned cases (time or failure limit)")
@@ -1048,6 +1211,8 @@ def run(tier: str, seed: int) -> dict:
                     slack["torch_entry"] = max(slack["torch_entry"], info["slack_entry"])
                 n_zero += info["zero"]
                 n_skip += info["skipped"]
+                n_edge[st["tool"]][0] += info["one"]
+                n_edge[st["tool"]][1] += info["two"]
                 n_session_calls += 1
                 prev = [j for j in range(k) if case["steps"][j]["syntax"] == st["syntax"] != "inline"]
                 n_rewritten += bool(prev) and info["compared"] >= 1
@@ -1069,6 +1234,8 @@ def run(tier: str, seed: int) -> dict:
             slack["torch_entry"] = max(slack["torch_entry"], info["slack_entry"])
         n_zero += info["zero"]
         n_skip += info["skipped"]
+        n_edge[case["tool"]][0] += info["one"]
+        n_edge[case["tool"]][1] += info["two"]
         if info["compared"] and geometry.get(case["computer"], (0, 0))[0] % 2:
             n_odd[case["tool"]] += 1
         if info["compared"] and case["seed"] == 0 and _has(PRES[case["pre"]], "dither"):
@@ -1090,6 +1257,16 @@ def run(tier: str, seed: int) -> dict:
         f"them with configuration files whose paths held another configuration in an earlier call of the session"
     )
     col.note(
+        f"frame-count boundaries: stored utterances for which compute_full gives exactly ONE frame compared with the "
+        f"pipeline (post-processors applied to the one frame): kaldi {n_edge['kaldi'][0]}, torch {n_edge['torch'][0]}; exactly "
+        f"TWO frames: kaldi {n_edge['kaldi'][1]}, torch {n_edge['torch'][1]}; boundary lengths [first n with 1, 2, 3 frames] "
+        f"per computer: {dict(_EDGE)}"
+    )
+    col.note(
+        "OPEN (reported, not in the plan): torch tool x STFT frame_style causal with frame length > shift x utterances shorter "
+        "than half the padded length (e.g. 25 ms / 10 ms at 8 kHz, 120..139 samples): the tool's torch STFT raises"
+    )
+    col.note(
         "not enumerated: torch tool x Standardize x zero-frame utterance (pipeline undefined: Standardize.apply "
         "rejects empty input); Kaldi tool zero-frame utterances are required only to be present with zero rows"
     )
@@ -1106,14 +1283,20 @@ def run(tier: str, seed: int) -> dict:
             "gammatone, none (torch)} x "
             "pre lists {none, preemph, dither, preemph+dither, dither+preemph, dither+dither} x post lists {none, deltas, "
             "stack, standardize, deltas+stack+standardize, stack+deltas, standardize+deltas} x {inline JSON, JSON file, "
-            "YAML file} x utterance sets of 3-5 utterances <= 0.3 s at 8 kHz (incl. too short for a frame, rate "
+            "YAML file} x utterance sets of 3-6 utterances <= 0.3 s at 8 kHz (incl. too short for a frame, rate "
             "mismatch, channel >= channels, below --min-duration, frame shift > frame length with an utterance in the gap, 2-3 channel signals with --channel, manifest-listed "
             "with ids that are prefixes / suffixes / extensions of the listed id and manifest lines that contain a map id, "
             "file prefix/suffix); containers wav/npy(f64,f32,i16)/pt"
+            + "; frame-count boundaries ('edge' sets, first in the plan): for 8 computers (STFT centred / Kaldi-shift / causal, "
+            "even and odd frame lengths, SI Gabor / gammatone) the longest utterance without a frame, the shortest and longest "
+            "with exactly one frame, the shortest and longest with exactly two frames and an ordinary one, in random table order, "
+            "x post lists that are defined on one frame {deltas, stack (discarding), stack with edge / constant padding, "
+            "Standardize with a statistics file, deltas + Standardize(statistics file) + padded stack, Standardize(norm_var "
+            "false) + padded stack, Standardize(norm_var false) + deltas} x both tools x 3 syntaxes"
             + "; call sequences in one process: 2 sessions of 11 calls (one starting with each tool; both tools, 3 syntaxes, 6-7 "
             "configurations out of 9, every file path rewritten between calls, options dropped between calls, same inline text "
             "twice)"
-            + ("; quick: 35 hand-picked combinations (4 of them with --seed=0 and dither) x 3 syntaxes" if tier == "quick" else "; thorough: quick plan + full cross product once with random syntax/options + 8 sessions of 19 calls (8 of them random)")
+            + ("; quick: 51 hand-picked combinations (16 of them edge sets, 4 with --seed=0 and dither) x 3 syntaxes" if tier == "quick" else "; thorough: quick plan + full cross product once with random syntax/options + 8 sessions of 19 calls (8 of them random)")
             + "; excluded: torch tool x Standardize x zero-frame utterance (pipeline undefined: Standardize.apply rejects empty input)"
         ),
         assumptions=ASSUMPTIONS,
